@@ -1,8 +1,10 @@
 (* C20: the shipped test assertions accept exactly equal collections.
    This file holds ONLY the property theorems (each closed by `exact`) and their
    non-vacuity examples. `= true` means the assertion returns, `= false` that it panics. *)
-From Coq Require Import List ZArith Bool Permutation.
-From IB Require Import Testing.Assertions Proofs.AssertionsProofs.
+From Coq Require Import List ZArith Bool Permutation SetoidList SetoidPermutation.
+From IB Require Import Testing.Assertions Testing.AssertionsMore Testing.MockIO.
+From IB Require Import Proofs.AssertionsProofs Proofs.AssertionsMoreProofs Proofs.AssertionsSetoidProofs
+                       Proofs.MockIOProofs.
 Import ListNotations.
 
 (* ---------- ordered ---------- *)
@@ -178,3 +180,694 @@ Qed.
 Example c20_grouped_repeated_key_rejected :
   assert_grouped_kv_equal Z.eqb [(1, [1]); (1, [2])]%Z [(1, [2]); (1, [1])]%Z = false.
 Proof. vm_compute. reflexivity. Qed.
+
+(* ====================================================================================== *)
+(* element types with a weaker equality                                                    *)
+(* ====================================================================================== *)
+
+(* T: PartialEq only. Whatever `==` is (not even reflexive: NaN), the ordered assertion passes
+   exactly when the two slices have the same length and are `==` position by position. *)
+Theorem c20_ordered_iff_any_eq :
+  forall (A : Type) (eqb : A -> A -> bool) (actual expected : list A),
+    assert_collections_equal eqb actual expected = true <->
+    Forall2 (fun x y => eqb x y = true) actual expected.
+Proof. exact ordered_iff_forall2. Qed.
+
+(* an equality under which negative numbers equal nothing *)
+Definition nan_like_eqb (x y : Z) : bool := (0 <=? x)%Z && (x =? y)%Z.
+
+Example c20_ordered_iff_any_eq_ex :
+  assert_collections_equal nan_like_eqb [1; 2]%Z [1; 2]%Z = true /\
+  Forall2 (fun x y => nan_like_eqb x y = true) [1; 2]%Z [1; 2]%Z /\
+  assert_collections_equal nan_like_eqb [1; -2]%Z [1; -2]%Z = false.
+Proof.
+  assert (H : assert_collections_equal nan_like_eqb [1; 2]%Z [1; 2]%Z = true) by (vm_compute; reflexivity).
+  split; [exact H|]. split; [|vm_compute; reflexivity].
+  exact (proj1 (c20_ordered_iff_any_eq Z nan_like_eqb _ _) H).
+Qed.
+
+(* ... so a collection holding an element that is not equal to itself differs from itself *)
+Theorem c20_ordered_self_irreflexive :
+  forall (A : Type) (eqb : A -> A -> bool) (a : list A) (x : A),
+    In x a -> eqb x x = false -> assert_collections_equal eqb a a = false.
+Proof. exact ordered_self_irreflexive. Qed.
+
+Example c20_ordered_self_irreflexive_ex :
+  In (-2)%Z [1; -2; 3]%Z /\ nan_like_eqb (-2) (-2) = false /\
+  assert_collections_equal nan_like_eqb [1; -2; 3]%Z [1; -2; 3]%Z = false.
+Proof.
+  assert (Hi : In (-2)%Z [1; -2; 3]%Z) by (right; left; reflexivity).
+  assert (Hx : nan_like_eqb (-2) (-2) = false) by (vm_compute; reflexivity).
+  split; [exact Hi|]. split; [exact Hx|].
+  exact (c20_ordered_self_irreflexive Z nan_like_eqb _ _ Hi Hx).
+Qed.
+
+(* slices of zero-sized elements: only the two lengths matter, for every length *)
+Theorem c20_ordered_repeat :
+  forall (A : Type) (eqb : A -> A -> bool) (x : A) (n m : nat),
+    eqb x x = true ->
+    assert_collections_equal eqb (repeat x n) (repeat x m) = Nat.eqb n m.
+Proof. exact ordered_repeat. Qed.
+
+Example c20_ordered_repeat_ex :
+  assert_collections_equal (fun _ _ : unit => true) (repeat tt 300) (repeat tt 44) = false /\
+  assert_collections_equal (fun _ _ : unit => true) (repeat tt 300) (repeat tt 300) = true.
+Proof.
+  split.
+  - rewrite (c20_ordered_repeat unit (fun _ _ => true) tt 300 44 eq_refl). vm_compute. reflexivity.
+  - rewrite (c20_ordered_repeat unit (fun _ _ => true) tt 300 300 eq_refl). vm_compute. reflexivity.
+Qed.
+
+(* T: Eq + Hash where Eq is an equivalence coarser than identity (say, it compares one field): the
+   unordered assertion decides equality as multisets up to that equivalence *)
+Theorem c20_unordered_iff_equivalence :
+  forall (A : Type) (eqb : A -> A -> bool),
+    (forall x, eqb x x = true) ->
+    (forall x y, eqb x y = true -> eqb y x = true) ->
+    (forall x y z, eqb x y = true -> eqb y z = true -> eqb x z = true) ->
+    forall actual expected : list A,
+      assert_collections_unordered_equal eqb actual expected = true <->
+      PermutationA (fun x y => eqb x y = true) actual expected.
+Proof. exact unordered_iff_equivalence. Qed.
+
+(* pairs (value, tag) compared by value only *)
+Definition by_value_eqb (x y : Z * Z) : bool := (fst x =? fst y)%Z.
+
+Example c20_unordered_iff_equivalence_ex :
+  assert_collections_unordered_equal by_value_eqb [(1, 10); (2, 11); (1, 12)]%Z [(2, 20); (1, 21); (1, 22)]%Z = true /\
+  PermutationA (fun x y => by_value_eqb x y = true) [(1, 10); (2, 11); (1, 12)]%Z [(2, 20); (1, 21); (1, 22)]%Z /\
+  assert_collections_unordered_equal by_value_eqb [(1, 10); (2, 11); (1, 12)]%Z [(2, 20); (2, 21); (1, 22)]%Z = false.
+Proof.
+  assert (Hr : forall x, by_value_eqb x x = true) by (intros x; apply Z.eqb_refl).
+  assert (Hs : forall x y, by_value_eqb x y = true -> by_value_eqb y x = true).
+  { intros x y H. unfold by_value_eqb in *. rewrite Z.eqb_sym. exact H. }
+  assert (Ht : forall x y z, by_value_eqb x y = true -> by_value_eqb y z = true -> by_value_eqb x z = true).
+  { intros x y z H1 H2. unfold by_value_eqb in *. apply Z.eqb_eq in H1. apply Z.eqb_eq in H2.
+    apply Z.eqb_eq. congruence. }
+  assert (H : assert_collections_unordered_equal by_value_eqb
+                [(1, 10); (2, 11); (1, 12)]%Z [(2, 20); (1, 21); (1, 22)]%Z = true) by (vm_compute; reflexivity).
+  split; [exact H|]. split; [|vm_compute; reflexivity].
+  exact (proj1 (c20_unordered_iff_equivalence (Z * Z) by_value_eqb Hr Hs Ht _ _) H).
+Qed.
+
+(* the count comparison done once per distinct element (what the correspondence check runs on
+   inputs of up to 65537 elements) is the same function *)
+Theorem c20_unordered_fast_eq :
+  forall (A : Type) (eqb : A -> A -> bool),
+    (forall x y, reflect (x = y) (eqb x y)) ->
+    forall actual expected : list A,
+      assert_collections_unordered_equal_fast eqb actual expected =
+      assert_collections_unordered_equal eqb actual expected.
+Proof. exact unordered_fast_eq. Qed.
+
+Example c20_unordered_fast_eq_ex :
+  assert_collections_unordered_equal_fast Z.eqb [3; 1; 2; 1]%Z [1; 1; 2; 3]%Z = true /\
+  assert_collections_unordered_equal_fast Z.eqb [1; 1; 2]%Z [1; 2; 2]%Z = false.
+Proof. split; vm_compute; reflexivity. Qed.
+
+(* ====================================================================================== *)
+(* assert_all / assert_any / assert_none                                                   *)
+(* ====================================================================================== *)
+Theorem c20_all_iff :
+  forall (A : Type) (p : A -> bool) (l : list A),
+    assert_all p l = true <-> Forall (fun x => p x = true) l.
+Proof. exact all_iff. Qed.
+
+Example c20_all_iff_ex :
+  assert_all Z.even [2; 4; 6]%Z = true /\ Forall (fun x => Z.even x = true) [2; 4; 6]%Z /\
+  assert_all Z.even [2; 3; 6]%Z = false /\ assert_all Z.even [] = true.
+Proof.
+  assert (H : assert_all Z.even [2; 4; 6]%Z = true) by (vm_compute; reflexivity).
+  split; [exact H|]. split; [exact (proj1 (c20_all_iff Z Z.even _) H)|].
+  split; vm_compute; reflexivity.
+Qed.
+
+Theorem c20_any_iff :
+  forall (A : Type) (p : A -> bool) (l : list A),
+    assert_any p l = true <-> Exists (fun x => p x = true) l.
+Proof. exact any_iff. Qed.
+
+Example c20_any_iff_ex :
+  assert_any Z.even [1; 3; 6]%Z = true /\ Exists (fun x => Z.even x = true) [1; 3; 6]%Z /\
+  assert_any Z.even [1; 3; 5]%Z = false /\ assert_any Z.even [] = false.
+Proof.
+  assert (H : assert_any Z.even [1; 3; 6]%Z = true) by (vm_compute; reflexivity).
+  split; [exact H|]. split; [exact (proj1 (c20_any_iff Z Z.even _) H)|].
+  split; vm_compute; reflexivity.
+Qed.
+
+Theorem c20_none_iff :
+  forall (A : Type) (p : A -> bool) (l : list A),
+    assert_none p l = true <-> Forall (fun x => p x = false) l.
+Proof. exact none_iff. Qed.
+
+Example c20_none_iff_ex :
+  assert_none Z.even [1; 3; 5]%Z = true /\ Forall (fun x => Z.even x = false) [1; 3; 5]%Z /\
+  assert_none Z.even [1; 3; 6]%Z = false /\ assert_none Z.even [] = true.
+Proof.
+  assert (H : assert_none Z.even [1; 3; 5]%Z = true) by (vm_compute; reflexivity).
+  split; [exact H|]. split; [exact (proj1 (c20_none_iff Z Z.even _) H)|].
+  split; vm_compute; reflexivity.
+Qed.
+
+(* assert_any passes exactly when assert_none panics; assert_none is assert_all of the negation *)
+Theorem c20_any_none_dual :
+  forall (A : Type) (p : A -> bool) (l : list A), assert_any p l = negb (assert_none p l).
+Proof. exact any_none. Qed.
+
+Example c20_any_none_dual_ex :
+  assert_any Z.even [1; 3; 6]%Z = negb (assert_none Z.even [1; 3; 6]%Z) /\
+  assert_any Z.even [1; 3; 6]%Z = true.
+Proof. split; vm_compute; reflexivity. Qed.
+
+Theorem c20_none_is_all_negated :
+  forall (A : Type) (p : A -> bool) (l : list A),
+    assert_none p l = assert_all (fun x => negb (p x)) l.
+Proof. exact none_all_negb. Qed.
+
+Example c20_none_is_all_negated_ex :
+  assert_none Z.even [1; 3; 5]%Z = assert_all (fun x => negb (Z.even x)) [1; 3; 5]%Z /\
+  assert_none Z.even [1; 3; 5]%Z = true.
+Proof. split; vm_compute; reflexivity. Qed.
+
+(* the three predicate assertions do not depend on the order of the collection *)
+Theorem c20_all_order_insensitive :
+  forall (A : Type) (p : A -> bool) (l l' : list A),
+    Permutation l l' -> assert_all p l = assert_all p l'.
+Proof. exact all_perm. Qed.
+
+Example c20_all_order_insensitive_ex :
+  Permutation [2; 3; 6]%Z [6; 2; 3]%Z /\ assert_all Z.even [2; 3; 6]%Z = assert_all Z.even [6; 2; 3]%Z.
+Proof.
+  assert (Hp : Permutation [2; 3; 6]%Z [6; 2; 3]%Z).
+  { apply Permutation_sym. apply (Permutation_cons_app [2; 3]%Z [] 6%Z). apply Permutation_refl. }
+  split; [exact Hp|]. exact (c20_all_order_insensitive Z Z.even _ _ Hp).
+Qed.
+
+Theorem c20_any_order_insensitive :
+  forall (A : Type) (p : A -> bool) (l l' : list A),
+    Permutation l l' -> assert_any p l = assert_any p l'.
+Proof. exact any_perm. Qed.
+
+Example c20_any_order_insensitive_ex :
+  Permutation [1; 3; 6]%Z [6; 1; 3]%Z /\ assert_any Z.even [1; 3; 6]%Z = assert_any Z.even [6; 1; 3]%Z.
+Proof.
+  assert (Hp : Permutation [1; 3; 6]%Z [6; 1; 3]%Z).
+  { apply Permutation_sym. apply (Permutation_cons_app [1; 3]%Z [] 6%Z). apply Permutation_refl. }
+  split; [exact Hp|]. exact (c20_any_order_insensitive Z Z.even _ _ Hp).
+Qed.
+
+Theorem c20_none_order_insensitive :
+  forall (A : Type) (p : A -> bool) (l l' : list A),
+    Permutation l l' -> assert_none p l = assert_none p l'.
+Proof. exact none_perm. Qed.
+
+Example c20_none_order_insensitive_ex :
+  Permutation [1; 3; 6]%Z [6; 1; 3]%Z /\ assert_none Z.even [1; 3; 6]%Z = assert_none Z.even [6; 1; 3]%Z.
+Proof.
+  assert (Hp : Permutation [1; 3; 6]%Z [6; 1; 3]%Z).
+  { apply Permutation_sym. apply (Permutation_cons_app [1; 3]%Z [] 6%Z). apply Permutation_refl. }
+  split; [exact Hp|]. exact (c20_none_order_insensitive Z Z.even _ _ Hp).
+Qed.
+
+(* assert_all walks the collection in order and stops at the FIRST element failing the predicate
+   (the one its message reports); a passing run has called the predicate once per element *)
+Theorem c20_all_stops_at_first_failure :
+  forall (A : Type) (p : A -> bool) (l : list A),
+    (assert_all p l = true -> calls_all p l = length l) /\
+    (assert_all p l = false ->
+     exists l1 x l2, l = l1 ++ x :: l2 /\ Forall (fun y => p y = true) l1 /\ p x = false /\
+                     calls_all p l = S (length l1)).
+Proof. exact all_calls_spec. Qed.
+
+Example c20_all_stops_at_first_failure_ex :
+  assert_all Z.even [2; 4; 5; 6; 7]%Z = false /\ calls_all Z.even [2; 4; 5; 6; 7]%Z = 3%nat /\
+  assert_all Z.even [2; 4]%Z = true /\ calls_all Z.even [2; 4]%Z = 2%nat.
+Proof. repeat split; vm_compute; reflexivity. Qed.
+
+(* assert_any and assert_none stop at the first element satisfying the predicate *)
+Theorem c20_any_stops_at_first_hit :
+  forall (A : Type) (p : A -> bool) (l : list A),
+    (assert_any p l = false -> calls_until_hit p l = length l) /\
+    (assert_any p l = true ->
+     exists l1 x l2, l = l1 ++ x :: l2 /\ Forall (fun y => p y = false) l1 /\ p x = true /\
+                     calls_until_hit p l = S (length l1)).
+Proof. exact hit_calls_spec. Qed.
+
+Example c20_any_stops_at_first_hit_ex :
+  assert_any Z.even [1; 3; 6; 8]%Z = true /\ calls_until_hit Z.even [1; 3; 6; 8]%Z = 3%nat /\
+  assert_any Z.even [1; 3]%Z = false /\ calls_until_hit Z.even [1; 3]%Z = 2%nat.
+Proof. repeat split; vm_compute; reflexivity. Qed.
+
+(* ====================================================================================== *)
+(* assert_collection_size / assert_contains                                                *)
+(* ====================================================================================== *)
+Theorem c20_size_iff :
+  forall (A : Type) (l : list A) (n : Z),
+    assert_collection_size l n = true <-> Z.of_nat (length l) = n.
+Proof. exact size_iff. Qed.
+
+Example c20_size_iff_ex :
+  assert_collection_size [7; 7; 7]%Z 3%Z = true /\ assert_collection_size [7; 7; 7]%Z 2%Z = false /\
+  assert_collection_size [7; 7; 7]%Z 4%Z = false /\ assert_collection_size [7; 7; 7]%Z (3 + 2 ^ 32)%Z = false /\
+  assert_collection_size (@nil Z) 0%Z = true.
+Proof. repeat split; vm_compute; reflexivity. Qed.
+
+Theorem c20_contains_iff_in :
+  forall (A : Type) (eqb : A -> A -> bool),
+    (forall x y, reflect (x = y) (eqb x y)) ->
+    forall (l : list A) (x : A), assert_contains eqb l x = true <-> In x l.
+Proof. exact contains_iff_in. Qed.
+
+Example c20_contains_iff_in_ex :
+  assert_contains Z.eqb [4; 1; 3]%Z 3%Z = true /\ In 3%Z [4; 1; 3]%Z /\
+  assert_contains Z.eqb [4; 1; 3]%Z 2%Z = false /\ assert_contains Z.eqb [] 2%Z = false.
+Proof.
+  assert (H : assert_contains Z.eqb [4; 1; 3]%Z 3%Z = true) by (vm_compute; reflexivity).
+  split; [exact H|]. split; [exact (proj1 (c20_contains_iff_in Z Z.eqb Z.eqb_spec _ _) H)|].
+  split; vm_compute; reflexivity.
+Qed.
+
+(* for any PartialEq (collection element on the left of `==`), and as an instance of assert_any *)
+Theorem c20_contains_iff_exists :
+  forall (A : Type) (eqb : A -> A -> bool) (l : list A) (x : A),
+    assert_contains eqb l x = true <-> Exists (fun y => eqb y x = true) l.
+Proof. exact contains_iff_exists. Qed.
+
+Example c20_contains_iff_exists_ex :
+  assert_contains nan_like_eqb [4; -1; 3]%Z (-1)%Z = false /\
+  assert_contains nan_like_eqb [4; -1; 3]%Z 3%Z = true /\
+  Exists (fun y => nan_like_eqb y 3 = true) [4; -1; 3]%Z.
+Proof.
+  assert (H : assert_contains nan_like_eqb [4; -1; 3]%Z 3%Z = true) by (vm_compute; reflexivity).
+  split; [vm_compute; reflexivity|]. split; [exact H|].
+  exact (proj1 (c20_contains_iff_exists Z nan_like_eqb _ _) H).
+Qed.
+
+Theorem c20_contains_is_any :
+  forall (A : Type) (eqb : A -> A -> bool) (l : list A) (x : A),
+    assert_contains eqb l x = assert_any (fun y => eqb y x) l.
+Proof. exact contains_any. Qed.
+
+Example c20_contains_is_any_ex :
+  assert_contains Z.eqb [4; 1; 3]%Z 3%Z = assert_any (fun y => Z.eqb y 3) [4; 1; 3]%Z /\
+  assert_contains Z.eqb [4; 1; 3]%Z 3%Z = true.
+Proof. split; vm_compute; reflexivity. Qed.
+
+Theorem c20_contains_iff_count :
+  forall (A : Type) (eqb : A -> A -> bool),
+    (forall x y, reflect (x = y) (eqb x y)) ->
+    forall (dec : forall x y : A, {x = y} + {x <> y}) (l : list A) (x : A),
+      assert_contains eqb l x = true <-> count_occ dec l x > 0.
+Proof. exact contains_iff_count. Qed.
+
+Example c20_contains_iff_count_ex :
+  count_occ Z.eq_dec [4; 3; 3]%Z 3%Z > 0 /\ assert_contains Z.eqb [4; 3; 3]%Z 3%Z = true.
+Proof.
+  assert (H : count_occ Z.eq_dec [4; 3; 3]%Z 3%Z > 0) by (vm_compute; repeat constructor).
+  split; [exact H|]. exact (proj2 (c20_contains_iff_count Z Z.eqb Z.eqb_spec Z.eq_dec _ _) H).
+Qed.
+
+(* ====================================================================================== *)
+(* assert_maps_equal                                                                       *)
+(* ====================================================================================== *)
+(* a HashMap is an association list with pairwise distinct keys. V: PartialEq only: the assertion
+   passes iff under every key both maps are vacant or hold values with actual == expected *)
+Theorem c20_maps_iff :
+  forall (K V : Type) (keqb : K -> K -> bool) (veqb : V -> V -> bool),
+    (forall x y, reflect (x = y) (keqb x y)) ->
+    forall actual expected : list (K * V),
+      NoDup (map fst actual) -> NoDup (map fst expected) ->
+      (assert_maps_equal keqb veqb actual expected = true <->
+       forall k, match lookup keqb k actual, lookup keqb k expected with
+                 | Some x, Some y => veqb x y = true
+                 | None, None => True
+                 | _, _ => False
+                 end).
+Proof. exact maps_equal_iff. Qed.
+
+Example c20_maps_iff_ex :
+  NoDup (map fst [(1, 5); (2, -6)]%Z) /\
+  assert_maps_equal Z.eqb nan_like_eqb [(1, 5); (2, 6)]%Z [(2, 6); (1, 5)]%Z = true /\
+  assert_maps_equal Z.eqb nan_like_eqb [(1, 5); (2, -6)]%Z [(1, 5); (2, -6)]%Z = false.
+Proof.
+  split; [repeat constructor; cbn; intuition discriminate|]. split; vm_compute; reflexivity.
+Qed.
+
+(* lawful value equality: the maps are equal as finite maps *)
+Theorem c20_maps_iff_lookup :
+  forall (K V : Type) (keqb : K -> K -> bool) (veqb : V -> V -> bool),
+    (forall x y, reflect (x = y) (keqb x y)) -> (forall x y, reflect (x = y) (veqb x y)) ->
+    forall actual expected : list (K * V),
+      NoDup (map fst actual) -> NoDup (map fst expected) ->
+      (assert_maps_equal keqb veqb actual expected = true <->
+       forall k, lookup keqb k actual = lookup keqb k expected).
+Proof. exact maps_equal_iff_lookup. Qed.
+
+Example c20_maps_iff_lookup_ex :
+  NoDup (map fst [(1, 5); (2, 6)]%Z) /\ NoDup (map fst [(2, 6); (1, 5)]%Z) /\
+  (forall k, lookup Z.eqb k [(1, 5); (2, 6)]%Z = lookup Z.eqb k [(2, 6); (1, 5)]%Z).
+Proof.
+  assert (Ha : NoDup (map fst [(1, 5); (2, 6)]%Z)) by (repeat constructor; cbn; intuition discriminate).
+  assert (He : NoDup (map fst [(2, 6); (1, 5)]%Z)) by (repeat constructor; cbn; intuition discriminate).
+  split; [exact Ha|]. split; [exact He|].
+  apply (proj1 (c20_maps_iff_lookup Z Z Z.eqb Z.eqb Z.eqb_spec Z.eqb_spec _ _ Ha He)).
+  vm_compute. reflexivity.
+Qed.
+
+(* ... i.e. the same entries in any order *)
+Theorem c20_maps_iff_perm :
+  forall (K V : Type) (keqb : K -> K -> bool) (veqb : V -> V -> bool),
+    (forall x y, reflect (x = y) (keqb x y)) -> (forall x y, reflect (x = y) (veqb x y)) ->
+    forall actual expected : list (K * V),
+      NoDup (map fst actual) -> NoDup (map fst expected) ->
+      (assert_maps_equal keqb veqb actual expected = true <-> Permutation actual expected).
+Proof. exact maps_equal_iff_perm. Qed.
+
+Example c20_maps_iff_perm_ex :
+  NoDup (map fst [(1, 5); (2, 6); (3, 5)]%Z) /\ NoDup (map fst [(3, 5); (1, 5); (2, 6)]%Z) /\
+  Permutation [(1, 5); (2, 6); (3, 5)]%Z [(3, 5); (1, 5); (2, 6)]%Z.
+Proof.
+  assert (Ha : NoDup (map fst [(1, 5); (2, 6); (3, 5)]%Z)) by (repeat constructor; cbn; intuition discriminate).
+  assert (He : NoDup (map fst [(3, 5); (1, 5); (2, 6)]%Z)) by (repeat constructor; cbn; intuition discriminate).
+  split; [exact Ha|]. split; [exact He|].
+  apply (proj1 (c20_maps_iff_perm Z Z Z.eqb Z.eqb Z.eqb_spec Z.eqb_spec _ _ Ha He)).
+  vm_compute. reflexivity.
+Qed.
+
+(* ... i.e., in the words of the property: the same key set and the same value under every key *)
+Theorem c20_maps_iff_same_keys_values :
+  forall (K V : Type) (keqb : K -> K -> bool) (veqb : V -> V -> bool),
+    (forall x y, reflect (x = y) (keqb x y)) -> (forall x y, reflect (x = y) (veqb x y)) ->
+    forall actual expected : list (K * V),
+      NoDup (map fst actual) -> NoDup (map fst expected) ->
+      (assert_maps_equal keqb veqb actual expected = true <->
+       (forall k, In k (map fst actual) <-> In k (map fst expected)) /\
+       (forall k va ve, In (k, va) actual -> In (k, ve) expected -> va = ve)).
+Proof. exact maps_equal_iff_same_keys_values. Qed.
+
+Example c20_maps_iff_same_keys_values_ex :
+  (forall k, In k (map fst [(1, 5); (2, 6)]%Z) <-> In k (map fst [(2, 6); (1, 5)]%Z)) /\
+  (forall k va ve, In (k, va) [(1, 5); (2, 6)]%Z -> In (k, ve) [(2, 6); (1, 5)]%Z -> va = ve).
+Proof.
+  assert (Ha : NoDup (map fst [(1, 5); (2, 6)]%Z)) by (repeat constructor; cbn; intuition discriminate).
+  assert (He : NoDup (map fst [(2, 6); (1, 5)]%Z)) by (repeat constructor; cbn; intuition discriminate).
+  apply (proj1 (c20_maps_iff_same_keys_values Z Z Z.eqb Z.eqb Z.eqb_spec Z.eqb_spec _ _ Ha He)).
+  vm_compute. reflexivity.
+Qed.
+
+(* the order in which a HashMap hands out its entries (the `for` loop over `expected`, the bucket
+   order of `actual`) has no influence on the outcome *)
+Theorem c20_maps_order_insensitive :
+  forall (K V : Type) (keqb : K -> K -> bool) (veqb : V -> V -> bool),
+    (forall x y, reflect (x = y) (keqb x y)) ->
+    forall a a' e e' : list (K * V),
+      NoDup (map fst a) -> NoDup (map fst e) -> Permutation a a' -> Permutation e e' ->
+      assert_maps_equal keqb veqb a e = assert_maps_equal keqb veqb a' e'.
+Proof. exact maps_equal_perm_invariant. Qed.
+
+Example c20_maps_order_insensitive_ex :
+  Permutation [(1, 5); (2, 6)]%Z [(2, 6); (1, 5)]%Z /\
+  assert_maps_equal Z.eqb Z.eqb [(1, 5); (2, 6)]%Z [(1, 5); (2, 7)]%Z =
+  assert_maps_equal Z.eqb Z.eqb [(2, 6); (1, 5)]%Z [(1, 5); (2, 7)]%Z.
+Proof.
+  assert (Hp : Permutation [(1, 5); (2, 6)]%Z [(2, 6); (1, 5)]%Z) by apply perm_swap.
+  split; [exact Hp|].
+  apply (c20_maps_order_insensitive Z Z Z.eqb Z.eqb Z.eqb_spec);
+    [repeat constructor; cbn; intuition discriminate|repeat constructor; cbn; intuition discriminate
+    |exact Hp|apply Permutation_refl].
+Qed.
+
+(* maps as they are built: insert / collect keeps the keys distinct and the last value wins *)
+Theorem c20_map_of_nodup :
+  forall (K V : Type) (keqb : K -> K -> bool),
+    (forall x y, reflect (x = y) (keqb x y)) ->
+    forall ins : list (K * V), NoDup (map fst (map_of keqb ins)).
+Proof. exact map_of_nodup. Qed.
+
+Example c20_map_of_nodup_ex :
+  map_of Z.eqb [(1, 5); (2, 6); (1, 7)]%Z = [(1, 7); (2, 6)]%Z /\
+  NoDup (map fst (map_of Z.eqb [(1, 5); (2, 6); (1, 7)]%Z)).
+Proof.
+  split; [vm_compute; reflexivity|]. exact (c20_map_of_nodup Z Z Z.eqb Z.eqb_spec _).
+Qed.
+
+Theorem c20_map_of_last_wins :
+  forall (K V : Type) (keqb : K -> K -> bool),
+    (forall x y, reflect (x = y) (keqb x y)) ->
+    forall (k : K) (ins : list (K * V)), lookup keqb k (map_of keqb ins) = lookup keqb k (rev ins).
+Proof. exact lookup_map_of. Qed.
+
+Example c20_map_of_last_wins_ex :
+  lookup Z.eqb 1%Z (map_of Z.eqb [(1, 5); (2, 6); (1, 7)]%Z) = Some 7%Z /\
+  lookup Z.eqb 1%Z (rev [(1, 5); (2, 6); (1, 7)]%Z) = Some 7%Z.
+Proof. split; vm_compute; reflexivity. Qed.
+
+Theorem c20_maps_of_inserts_iff :
+  forall (K V : Type) (keqb : K -> K -> bool) (veqb : V -> V -> bool),
+    (forall x y, reflect (x = y) (keqb x y)) -> (forall x y, reflect (x = y) (veqb x y)) ->
+    forall ia ie : list (K * V),
+      assert_maps_equal keqb veqb (map_of keqb ia) (map_of keqb ie) = true <->
+      forall k, lookup keqb k (rev ia) = lookup keqb k (rev ie).
+Proof. exact maps_of_inserts_iff. Qed.
+
+Example c20_maps_of_inserts_iff_ex :
+  assert_maps_equal Z.eqb Z.eqb (map_of Z.eqb [(1, 5); (2, 6); (1, 7)]%Z) (map_of Z.eqb [(2, 6); (1, 7)]%Z) = true /\
+  (forall k, lookup Z.eqb k (rev [(1, 5); (2, 6); (1, 7)]%Z) = lookup Z.eqb k (rev [(2, 6); (1, 7)]%Z)) /\
+  assert_maps_equal Z.eqb Z.eqb (map_of Z.eqb [(1, 7); (2, 6); (1, 5)]%Z) (map_of Z.eqb [(2, 6); (1, 7)]%Z) = false.
+Proof.
+  assert (H : assert_maps_equal Z.eqb Z.eqb (map_of Z.eqb [(1, 5); (2, 6); (1, 7)]%Z)
+                (map_of Z.eqb [(2, 6); (1, 7)]%Z) = true) by (vm_compute; reflexivity).
+  split; [exact H|]. split; [|vm_compute; reflexivity].
+  exact (proj1 (c20_maps_of_inserts_iff Z Z Z.eqb Z.eqb Z.eqb_spec Z.eqb_spec _ _) H).
+Qed.
+
+(* never accepted: a key on one side only, or different values under a key *)
+Theorem c20_maps_reject_extra_key :
+  forall (K V : Type) (keqb : K -> K -> bool) (veqb : V -> V -> bool),
+    (forall x y, reflect (x = y) (keqb x y)) -> (forall x y, reflect (x = y) (veqb x y)) ->
+    forall (actual expected : list (K * V)) (k : K),
+      NoDup (map fst actual) -> NoDup (map fst expected) ->
+      In k (map fst actual) -> ~ In k (map fst expected) ->
+      assert_maps_equal keqb veqb actual expected = false.
+Proof. exact maps_reject_extra_key. Qed.
+
+Example c20_maps_reject_extra_key_ex :
+  assert_maps_equal Z.eqb Z.eqb [(1, 5); (2, 6)]%Z [(1, 5)]%Z = false /\
+  assert_maps_equal Z.eqb Z.eqb [(1, 5); (2, 6)]%Z [(1, 5); (3, 6)]%Z = false.
+Proof.
+  split; [vm_compute; reflexivity|].
+  apply (c20_maps_reject_extra_key Z Z Z.eqb Z.eqb Z.eqb_spec Z.eqb_spec _ _ 2%Z);
+    [repeat constructor; cbn; intuition discriminate|repeat constructor; cbn; intuition discriminate
+    |cbn; auto|cbn; intuition discriminate].
+Qed.
+
+Theorem c20_maps_reject_missing_key :
+  forall (K V : Type) (keqb : K -> K -> bool) (veqb : V -> V -> bool),
+    (forall x y, reflect (x = y) (keqb x y)) -> (forall x y, reflect (x = y) (veqb x y)) ->
+    forall (actual expected : list (K * V)) (k : K),
+      NoDup (map fst actual) -> NoDup (map fst expected) ->
+      ~ In k (map fst actual) -> In k (map fst expected) ->
+      assert_maps_equal keqb veqb actual expected = false.
+Proof. exact maps_reject_missing_key. Qed.
+
+Example c20_maps_reject_missing_key_ex :
+  assert_maps_equal Z.eqb Z.eqb [(1, 5)]%Z [(1, 5); (2, 6)]%Z = false.
+Proof.
+  apply (c20_maps_reject_missing_key Z Z Z.eqb Z.eqb Z.eqb_spec Z.eqb_spec _ _ 2%Z);
+    [repeat constructor; cbn; intuition discriminate|repeat constructor; cbn; intuition discriminate
+    |cbn; intuition discriminate|cbn; auto].
+Qed.
+
+Theorem c20_maps_reject_value :
+  forall (K V : Type) (keqb : K -> K -> bool) (veqb : V -> V -> bool),
+    (forall x y, reflect (x = y) (keqb x y)) -> (forall x y, reflect (x = y) (veqb x y)) ->
+    forall (actual expected : list (K * V)) (k : K) (va ve : V),
+      NoDup (map fst actual) -> NoDup (map fst expected) ->
+      In (k, va) actual -> In (k, ve) expected -> va <> ve ->
+      assert_maps_equal keqb veqb actual expected = false.
+Proof. exact maps_reject_value. Qed.
+
+Example c20_maps_reject_value_ex :
+  assert_maps_equal Z.eqb Z.eqb [(1, 5); (2, 6)]%Z [(2, 7); (1, 5)]%Z = false.
+Proof.
+  apply (c20_maps_reject_value Z Z Z.eqb Z.eqb Z.eqb_spec Z.eqb_spec _ _ 2%Z 6%Z 7%Z);
+    [repeat constructor; cbn; intuition discriminate|repeat constructor; cbn; intuition discriminate
+    |cbn; auto|cbn; auto|discriminate].
+Qed.
+
+(* ====================================================================================== *)
+(* assert_jsonl_equals / assert_csv_equals (file = list of lines, None = cannot be opened)  *)
+(* ====================================================================================== *)
+(* example instance: a line is Some z (a record if z >= 0, malformed otherwise) or None (blank);
+   the csv header row is Some (-1) *)
+Definition ex_blank (l : option Z) : bool := match l with None => true | Some _ => false end.
+Definition ex_parse (l : option Z) : option Z :=
+  match l with Some z => if (0 <=? z)%Z then Some z else None | None => None end.
+Definition ex_cparse (h l : option Z) : option Z :=
+  match h with Some (-1)%Z => ex_parse l | _ => None end.
+
+(* the JSON Lines assertion passes iff the non-blank lines of the file parse, one by one and in
+   order, to the expected records *)
+Theorem c20_jsonl_iff :
+  forall (L R : Type) (reqb : R -> R -> bool),
+    (forall x y, reflect (x = y) (reqb x y)) ->
+    forall (blank : L -> bool) (parse : L -> option R) (lines : list L) (expected : list R),
+      assert_jsonl_equals reqb blank parse (Some lines) expected = true <->
+      Forall2 (fun l x => parse l = Some x) (filter (fun l => negb (blank l)) lines) expected.
+Proof. exact jsonl_iff. Qed.
+
+Example c20_jsonl_iff_ex :
+  assert_jsonl_equals Z.eqb ex_blank ex_parse (Some [Some 4; None; Some 5; None]%Z) [4; 5]%Z = true /\
+  Forall2 (fun l x => ex_parse l = Some x)
+          (filter (fun l => negb (ex_blank l)) [Some 4; None; Some 5; None]%Z) [4; 5]%Z /\
+  assert_jsonl_equals Z.eqb ex_blank ex_parse (Some [Some 4; None; Some 5]%Z) [4]%Z = false /\
+  assert_jsonl_equals Z.eqb ex_blank ex_parse (Some [Some 4; None; Some 5]%Z) [5; 4]%Z = false.
+Proof.
+  assert (H : assert_jsonl_equals Z.eqb ex_blank ex_parse (Some [Some 4; None; Some 5; None]%Z) [4; 5]%Z = true)
+    by (vm_compute; reflexivity).
+  split; [exact H|]. split; [exact (proj1 (c20_jsonl_iff _ Z Z.eqb Z.eqb_spec ex_blank ex_parse _ _) H)|].
+  split; vm_compute; reflexivity.
+Qed.
+
+Theorem c20_jsonl_no_file :
+  forall (L R : Type) (reqb : R -> R -> bool) (blank : L -> bool) (parse : L -> option R) (expected : list R),
+    assert_jsonl_equals reqb blank parse None expected = false.
+Proof. exact jsonl_no_file. Qed.
+
+Example c20_jsonl_no_file_ex :
+  assert_jsonl_equals Z.eqb ex_blank ex_parse None [] = false.
+Proof. exact (c20_jsonl_no_file _ Z Z.eqb ex_blank ex_parse []). Qed.
+
+(* one malformed line anywhere fails the assertion whatever is expected *)
+Theorem c20_jsonl_bad_line :
+  forall (L R : Type) (reqb : R -> R -> bool),
+    (forall x y, reflect (x = y) (reqb x y)) ->
+    forall (blank : L -> bool) (parse : L -> option R) (lines : list L) (l : L) (expected : list R),
+      In l lines -> blank l = false -> parse l = None ->
+      assert_jsonl_equals reqb blank parse (Some lines) expected = false.
+Proof. exact jsonl_bad_line. Qed.
+
+Example c20_jsonl_bad_line_ex :
+  assert_jsonl_equals Z.eqb ex_blank ex_parse (Some [Some 4; Some (-3); Some 5]%Z) [4; 5]%Z = false.
+Proof.
+  apply (c20_jsonl_bad_line _ Z Z.eqb Z.eqb_spec ex_blank ex_parse _ (Some (-3)%Z));
+    [right; left; reflexivity|reflexivity|reflexivity].
+Qed.
+
+(* blank lines do not matter, wherever they are *)
+Theorem c20_jsonl_skips_blank :
+  forall (L R : Type) (blank : L -> bool) (parse : L -> option R) (lines : list L),
+    read_jsonl blank parse (filter (fun l => negb (blank l)) lines) = read_jsonl blank parse lines.
+Proof. exact read_jsonl_skips_blank. Qed.
+
+Example c20_jsonl_skips_blank_ex :
+  read_jsonl ex_blank ex_parse [None; Some 4; None; None; Some 5]%Z = Some [4; 5]%Z /\
+  read_jsonl ex_blank ex_parse (filter (fun l => negb (ex_blank l)) [None; Some 4; None; None; Some 5]%Z) = Some [4; 5]%Z.
+Proof. split; vm_compute; reflexivity. Qed.
+
+(* a file written by mock_jsonl_file is accepted for exactly the data it was written from *)
+Theorem c20_jsonl_roundtrip :
+  forall (L R : Type) (reqb : R -> R -> bool),
+    (forall x y, reflect (x = y) (reqb x y)) ->
+    forall (blank : L -> bool) (parse : L -> option R) (print : R -> L),
+      (forall x, parse (print x) = Some x) -> (forall x, blank (print x) = false) ->
+      forall data expected : list R,
+        assert_jsonl_equals reqb blank parse (Some (mock_jsonl_file print data)) expected = true <->
+        data = expected.
+Proof. exact jsonl_roundtrip. Qed.
+
+(* records are the natural numbers here, so that every record prints to a line that parses back *)
+Example c20_jsonl_roundtrip_ex :
+  let parse := fun l : option nat => l in
+  let blank := fun l : option nat => match l with None => true | _ => false end in
+  (forall x, parse (Some x) = Some x) /\ (forall x, blank (Some x) = false) /\
+  assert_jsonl_equals Nat.eqb blank parse (Some (mock_jsonl_file (@Some nat) [3; 1; 2])) [3; 1; 2] = true /\
+  assert_jsonl_equals Nat.eqb blank parse (Some (mock_jsonl_file (@Some nat) [3; 1; 2])) [3; 2; 1] = false.
+Proof.
+  cbv zeta. split; [reflexivity|]. split; [reflexivity|]. split.
+  - apply (proj2 (c20_jsonl_roundtrip _ nat Nat.eqb Nat.eqb_spec
+                    (fun l => match l with None => true | _ => false end) (fun l => l) (@Some nat)
+                    (fun x => eq_refl) (fun x => eq_refl) [3; 1; 2] [3; 1; 2])). reflexivity.
+  - vm_compute. reflexivity.
+Qed.
+
+(* CSV: the first non-empty row is taken as the header row and never compared; the remaining rows,
+   deserialized against it, must be the expected records in order *)
+Theorem c20_csv_iff :
+  forall (L R : Type) (reqb : R -> R -> bool),
+    (forall x y, reflect (x = y) (reqb x y)) ->
+    forall (cblank : L -> bool) (cparse : L -> L -> option R) (lines : list L) (expected : list R),
+      assert_csv_equals reqb cblank cparse (Some lines) expected = true <->
+      match filter (fun l => negb (cblank l)) lines with
+      | [] => expected = []
+      | h :: rows => Forall2 (fun l x => cparse h l = Some x) rows expected
+      end.
+Proof. exact csv_iff. Qed.
+
+Example c20_csv_iff_ex :
+  assert_csv_equals Z.eqb ex_blank ex_cparse (Some [Some (-1); Some 4; None; Some 5]%Z) [4; 5]%Z = true /\
+  assert_csv_equals Z.eqb ex_blank ex_cparse (Some [Some 4; Some 5]%Z) [4; 5]%Z = false /\
+  assert_csv_equals Z.eqb ex_blank ex_cparse (Some [Some 4]%Z) [] = true /\
+  assert_csv_equals Z.eqb ex_blank ex_cparse (Some [Some (-1); Some 4; Some 5]%Z) [4]%Z = false.
+Proof. repeat split; vm_compute; reflexivity. Qed.
+
+Theorem c20_csv_no_file :
+  forall (L R : Type) (reqb : R -> R -> bool) (cblank : L -> bool) (cparse : L -> L -> option R)
+         (expected : list R),
+    assert_csv_equals reqb cblank cparse None expected = false.
+Proof. exact csv_no_file. Qed.
+
+Example c20_csv_no_file_ex :
+  assert_csv_equals Z.eqb ex_blank ex_cparse None [] = false.
+Proof. exact (c20_csv_no_file _ Z Z.eqb ex_blank ex_cparse []). Qed.
+
+(* a file written by mock_csv_file (either value of with_header: the flag has no effect) is accepted
+   for exactly the data it was written from *)
+Theorem c20_csv_roundtrip :
+  forall (L R : Type) (reqb : R -> R -> bool),
+    (forall x y, reflect (x = y) (reqb x y)) ->
+    forall (cblank : L -> bool) (cparse : L -> L -> option R) (print : R -> L) (header : L),
+      (forall x, cparse header (print x) = Some x) -> cblank header = false ->
+      (forall x, cblank (print x) = false) ->
+      forall (data expected : list R) (with_header : bool),
+        assert_csv_equals reqb cblank cparse (Some (mock_csv_file print header data with_header)) expected = true <->
+        data = expected.
+Proof. exact csv_roundtrip. Qed.
+
+Example c20_csv_roundtrip_ex :
+  let cblank := fun l : option (option nat) => match l with None => true | _ => false end in
+  let cparse := fun h l : option (option nat) => match h, l with Some None, Some (Some x) => Some x | _, _ => None end in
+  let print := fun x : nat => Some (Some x) in
+  assert_csv_equals Nat.eqb cblank cparse (Some (mock_csv_file print (Some None) [3; 1; 2] false)) [3; 1; 2] = true /\
+  mock_csv_file print (Some None) [3; 1; 2] false = mock_csv_file print (Some None) [3; 1; 2] true /\
+  mock_csv_file print (Some None) [] true = [].
+Proof.
+  cbv zeta. split; [|split; reflexivity].
+  apply (proj2 (c20_csv_roundtrip _ nat Nat.eqb Nat.eqb_spec
+                  (fun l => match l with None => true | _ => false end)
+                  (fun h l => match h, l with Some None, Some (Some x) => Some x | _, _ => None end)
+                  (fun x => Some (Some x)) (Some None)
+                  (fun x => eq_refl) eq_refl (fun x => eq_refl) [3; 1; 2] [3; 1; 2] false)). reflexivity.
+Qed.
+
+(* a CSV file that has no header row loses its first record: the reader takes it for the header *)
+Theorem c20_csv_headerless_loses_first :
+  forall (L R : Type) (reqb : R -> R -> bool),
+    (forall x y, reflect (x = y) (reqb x y)) ->
+    forall (cblank : L -> bool) (cparse : L -> L -> option R) (print : R -> L)
+           (x : R) (data expected : list R),
+      (forall y, cblank (print y) = false) ->
+      (assert_csv_equals reqb cblank cparse (Some (map print (x :: data))) expected = true <->
+       Forall2 (fun l y => cparse (print x) l = Some y) (map print data) expected).
+Proof. exact csv_headerless_loses_first. Qed.
+
+(* with a position-based record type (the header names are not looked at) the file [7; 8; 9] without
+   a header row is accepted for the expectation [8; 9] *)
+Example c20_csv_headerless_loses_first_ex :
+  let cblank := fun l : option nat => match l with None => true | _ => false end in
+  let cparse := fun (h l : option nat) => l in
+  (forall y, cblank (Some y) = false) /\
+  assert_csv_equals Nat.eqb cblank cparse (Some (map (@Some nat) [7; 8; 9])) [8; 9] = true /\
+  assert_csv_equals Nat.eqb cblank cparse (Some (map (@Some nat) [7; 8; 9])) [7; 8; 9] = false.
+Proof. cbv zeta. split; [reflexivity|]. split; vm_compute; reflexivity. Qed.
